@@ -2844,7 +2844,9 @@ func RegexpRemoveExtCommunities(path *Path, exps []*regexp.Regexp, subtypes []bg
 	for _, comm := range comms {
 		match := false
 		// match only with transitive community. see RFC7153
+		// (a non-transitive one is never a candidate for removal: keep it)
 		if !isTransitiveType(comm) {
+			newComms = append(newComms, comm)
 			continue
 		}
 		for idx, exp := range exps {
